@@ -1156,12 +1156,12 @@ variable {W : Type}
 theorem inv_pollOne (ops : Ops W) {pend : Fd → Prop} {s : St W} (h : Inv pend s) (fd : Fd) (q : FdQueue)
     (ev : Event) (hr : s.reg fd = some q) :
     ∃ s', pollOne ops s ev fd = .ok (s', none) ∧ Inv (fun x => pend x ∧ x ≠ fd) s' ∧
-      (∀ x, x ≠ fd → s'.reg x = s.reg x) := by
+      (∀ x, x ≠ fd → s'.reg x = s.reg x) ∧ s'.chan = s.chan := by
   obtain ⟨hne, ev0, he, _, _⟩ := (h.q.armed fd).reg_some hr
   have hpend : ∀ x, x ≠ fd → pend x → (pend x ∧ x ≠ fd) := fun x hx hp => ⟨hp, hx⟩
   cases hpop : q.popInterest ev with
   | none =>
-    refine ⟨_, pollOne_nopop ops s ev fd q ev0 hr he hne hpop, ?_, fun _ _ => rfl⟩
+    refine ⟨_, pollOne_nopop ops s ev fd q ev0 hr he hne hpop, ?_, fun _ _ => rfl, rfl⟩
     exact inv_rearm h fd q hr hpend rfl rfl rfl rfl rfl rfl rfl rfl rfl
   | some p =>
     obtain ⟨id, q'⟩ := p
@@ -1175,12 +1175,12 @@ theorem inv_pollOne (ops : Ops W) {pend : Fd → Prop} {s : St W} (h : Inv pend 
       | none =>
         obtain ⟨s', hs', e1, e2, e3, e4, e5, e6, e7, e8, e9, _⟩ :=
           pollOne_pending ops s ev fd q q' ev0 id d w' hr he hpop hqeq htr hop
-        refine ⟨s', hs', ?_, fun x _ => by rw [e1]⟩
+        refine ⟨s', hs', ?_, fun x _ => by rw [e1], e5⟩
         exact inv_rearm h fd q hr hpend e1 e2 e3 e4 e5 e6 e7 e8 e9
       | some res =>
         obtain ⟨s', hs', e1, e2, e3, e4, e5, e6, e7, e8, e9, _⟩ :=
           pollOne_ready ops s ev fd q q' ev0 id d res w' hr he hpop htr hop
-        refine ⟨s', hs', ?_, fun x hx => by rw [e1]; simp [upd, hx]⟩
+        refine ⟨s', hs', ?_, fun x hx => by rw [e1]; simp [upd, hx], e5⟩
         have hnd := h.q.nodup fd d
         rw [queue_of_reg_some hr, hget] at hnd
         have hnotin : id ∉ q'.get d := (List.nodup_cons.1 hnd).1
@@ -1243,12 +1243,12 @@ def mkEv (s : St W) (f : Fired) : Event := ⟨keyOf s f.fd, f.readable, f.writab
 theorem inv_eventLoop (ops : Ops W) : ∀ (fired : List Fired) (s : St W),
     Inv (fun x => x ∈ fired.map (·.fd)) s → (fired.map (·.fd)).Nodup →
     (∀ f ∈ fired, ∃ q, s.reg f.fd = some q) →
-    ∃ s', eventLoop ops s (fired.map (mkEv s)) = .ok (s', .ok) ∧ Inv noPend s' := by
+    ∃ s', eventLoop ops s (fired.map (mkEv s)) = .ok (s', .ok) ∧ Inv noPend s' ∧ s'.chan = s.chan := by
   intro fired
   induction fired with
   | nil =>
     intro s h _ _
-    refine ⟨s, rfl, ?_⟩
+    refine ⟨s, rfl, ?_, rfl⟩
     have : (fun x => x ∈ ([] : List Fired).map (·.fd)) = noPend := by funext x; simp [noPend]
     rw [this] at h; exact h
   | cons f rest ih =>
@@ -1264,7 +1264,7 @@ theorem inv_eventLoop (ops : Ops W) : ∀ (fired : List Fired) (s : St W),
     have htr := h.q.tracked f.fd d _ hmemS
     have hsrc := (h.k.qFresh _ ⟨f.fd, d, hmemS⟩).1
     obtain ⟨w0, hw0⟩ := h.k.pending_of_fresh hsrc (Or.inl ⟨f.fd, d, hmemS⟩)
-    obtain ⟨s1, hs1, hinv1, hframe⟩ := inv_pollOne ops h f.fd q (mkEv s f) hr
+    obtain ⟨s1, hs1, hinv1, hframe, hchan1⟩ := inv_pollOne ops h f.fd q (mkEv s f) hr
     -- the remaining events still carry the registered keys
     have hmk : rest.map (mkEv s) = rest.map (mkEv s1) := by
       apply List.map_congr_left
@@ -1283,12 +1283,12 @@ theorem inv_eventLoop (ops : Ops W) : ∀ (fired : List Fired) (s : St W),
         · intro h1
           exact ⟨Or.inr h1, fun e => hnotin (e ▸ h1)⟩
       rw [this] at hinv1; exact hinv1
-    obtain ⟨s', hs', hinv'⟩ := ih s1 hinv1' hnd' (by
+    obtain ⟨s', hs', hinv', hchan'⟩ := ih s1 hinv1' hnd' (by
       intro g hg
       have hne' : g.fd ≠ f.fd := fun e => hnotin (e ▸ List.mem_map.2 ⟨g, hg, rfl⟩)
       rw [hframe g.fd hne']
       exact hregs g (List.mem_cons_of_mem _ hg))
-    refine ⟨s', ?_, hinv'⟩
+    refine ⟨s', ?_, hinv', hchan'.trans hchan1⟩
     rw [List.map_cons]
     unfold eventLoop
     have hfree : (s.keys.slot (mkEv s f).key == Slot.free) = false := by
@@ -1428,7 +1428,7 @@ theorem inv_poll (ops : Ops W) {s : St W} (h : Inv noPend s) (t : Bool) (fired :
           apply List.map_congr_left
           intro f _
           simp [mkEv, keyOf, hreg]
-        obtain ⟨s', hs', hinv'⟩ := inv_eventLoop ops fired s2 hinv2 hnd (by
+        obtain ⟨s', hs', hinv', _⟩ := inv_eventLoop ops fired s2 hinv2 hnd (by
           intro f hf; rw [hreg]; exact hregs f hf)
         exact ⟨s', .ok, by rw [hmk]; exact hs', hinv', Or.inl rfl⟩
       cases hcc : (!s.chan.isEmpty) with
@@ -1552,5 +1552,62 @@ theorem sublist_cons_mem {α : Type} {x y : α} {rest : List α} : ∀ {l : List
       exact ⟨a :: l1, l2, by rw [e]; rfl, hm⟩
     | cons_cons _ h' => exact ⟨[], l, rfl, h'.subset hy⟩
 
+
+
+section
+variable {W : Type}
+
+/-- `Driver::poll` leaves nothing in the `completed` channel: whatever was queued when it was called (results
+    of thread-pool jobs, ECANCELED entries of cancelled operations) has been handed to `set_result` -/
+theorem poll_chan_nil (ops : Ops W) {s s' : St W} {r : PollRes} (h : Inv noPend s) (t : Bool) (fired : List Fired)
+    (hp : poll ops s t fired = .ok (s', r)) : s'.chan = [] := by
+  unfold poll at hp
+  cases hd : deliver s fired with
+  | error e => rw [hd] at hp; cases hp
+  | ok p =>
+    obtain ⟨s1, evs⟩ := p
+    rw [hd] at hp
+    obtain ⟨hinv1, hnd, hregs, hevs, hchan⟩ := inv_deliver h fired evs hd
+    simp only at hp
+    cases hfe : evs.isEmpty with
+    | true =>
+      simp only [hfe, if_true] at hp
+      rw [pollCompleted_eq] at hp
+      cases hb : (!s1.chan.isEmpty) with
+      | true => simp only [hb] at hp; cases hp; rfl
+      | false =>
+        simp only [hb] at hp
+        cases t with
+        | true => simp only [if_true] at hp; cases hp; rfl
+        | false => simp only [Bool.false_eq_true, if_false] at hp; cases hp; rfl
+    | false =>
+      simp only [hfe, Bool.false_eq_true, if_false] at hp
+      have key : ∀ s2 : St W, Inv (fun x => x ∈ fired.map (·.fd)) s2 → s2.reg = s1.reg → s2.chan = [] →
+          eventLoop ops s2 evs = .ok (s', r) → s'.chan = [] := by
+        intro s2 hinv2 hreg hc2 hev
+        have hmk : evs = fired.map (mkEv s2) := by
+          rw [hevs]
+          apply List.map_congr_left
+          intro f _
+          simp [mkEv, keyOf, hreg]
+        obtain ⟨s3, hs3, _, hchan3⟩ := inv_eventLoop ops fired s2 hinv2 hnd (by
+          intro f hf; rw [hreg]; exact hregs f hf)
+        rw [hmk, hs3] at hev
+        cases hev
+        rw [hchan3]; exact hc2
+      cases hcc : (!s.chan.isEmpty) with
+      | true =>
+        simp only [hcc, if_true] at hp
+        exact key _ (inv_pollCompleted hinv1) (by rw [pollCompleted_eq]) (by rw [pollCompleted_eq]) hp
+      | false =>
+        simp only [hcc, Bool.false_eq_true, if_false] at hp
+        have : s1.chan = [] := by
+          rw [hchan]
+          cases hc : s.chan with
+          | nil => rfl
+          | cons a l => rw [hc] at hcc; simp at hcc
+        exact key _ hinv1 rfl this hp
+
+end
 
 end Compio.PollDriver
